@@ -438,12 +438,14 @@ def process_chunk(payload):
     seed, jobs = payload
     lines, recs = [], []
     for idx, sig, calls, n_extra in jobs:
+        if n_extra == 'alt':                         # quick tier, exhaustive scope: a failing/raising variant for every other call
+            n_extra = (lambda j, idx=idx: (idx + j + seed) % 2)
         fx = Fixture(sig)
         rng = random.Random(f'{seed}:{idx}')
         cases, reqs = [], []
         for call in calls:
             first = run_case(fx, call, [], 'ret')
-            scens = scenarios(rng, sig, call, first['expected'], n_extra)
+            scens = scenarios(rng, sig, call, first['expected'], n_extra(len(reqs)) if callable(n_extra) else n_extra)
             for bad, mode in scens:
                 obs = first if (not bad and mode == 'ret') else run_case(fx, call, bad, mode)
                 cases.append((call, bad, mode, obs))
@@ -501,8 +503,9 @@ def process_chunk(payload):
                     (obs['bind'][0] == 'err' and nchk >= 1)
                 if nchk >= 2 and nonpos and len({k for k, *_ in sig_params(sig)}) >= 2:
                     res['nontrivial'].add((sig_str(sig), call_str(call)))
-        if len(res['samples']) < 2 and cases:
-            call, bad, mode, obs = cases[len(cases) // 2]
+        good = [c for c in cases if len(c[3]['trace']) >= 3 and c[3]['result'][0] in ('returned', 'paramViolation')]
+        if len(res['samples']) < 2 and good and len(sig_params(sig)) >= 3:
+            call, bad, mode, obs = good[len(good) // 2]
             res['samples'].append({'signature': sig_str(sig), 'call': call_str(call), 'failing_pairs': bad, 'body': mode,
                                    'real_trace': obs['trace'], 'real_result': obs['result'], 'body_ran': obs['ran']})
     res['kinds'] = sorted(res['kinds'])
@@ -585,7 +588,7 @@ def gen_jobs(seed: int, tier: str, scale: int = 1):
     sm = list(small_sigs())
     for i, sig in enumerate(sm):
         calls = list(small_calls(sig, i))
-        jobs.append((len(jobs), sig, calls, 1))
+        jobs.append((len(jobs), sig, calls, 'alt' if quick else 1))
     n_small = len(jobs)
     counts = list(itertools.product((0, 1, 2), (0, 1, 2), (0, 1), (0, 1, 2), (0, 1)))
     for c in counts:                                 # every legal kind sequence with <= 2 per kind
